@@ -2,7 +2,7 @@ import Sudachi.Model.Recycle
 /-!
 # Line protocol of C10: replay a history through the discipline model and print every recycled length
 
-`C10 hist idx=N mode=<0|1|2> ops=<op>/<op>/…` → `ok <state after op 1>|<state after op 2>|…`
+`C10 hist idx=N mode=<0|1|2> [reset_variant=cur|fix] ops=<op>/<op>/…` → `ok <state after op 1>|<state after op 2>|…`
 
 The element type is `Nat`.  Text buffers hold one element per byte: `1` for the first byte of a
 character, `0` otherwise, so `chars`, `c2b`, `b2c`, `identMap` are real functions of the buffer content
@@ -203,19 +203,27 @@ def showLists (w : World Nat) : String :=
 def showState (w : World Nat) (o : Outcome) : String :=
   showOutcome o ++ ";" ++ showTok w.tok ++ ";m=" ++ showLists w
 
-def replay (w : World Nat) : List (Payload Nat × Op Nat) → List String → List String
+def replay (v : ResetVariant) (w : World Nat) : List (Payload Nat × Op Nat) → List String → List String
   | [], acc => acc.reverse
   | (P, op) :: rest, acc =>
-    let r := w.step P op
-    replay r.1 rest (showState r.1 r.2 :: acc)
+    let r := w.step v P op
+    replay v r.1 rest (showState r.1 r.2 :: acc)
 
-/-- `C10 hist idx=N mode=m ops=…` -/
+/-- the token `reset_variant=cur|fix` of the case line; `cur` when the token is absent.  The harness writes
+`fix` when `StatefulTokenizer::reset` of the tree it is built against re-creates a missing path
+(`get_or_insert_with(Vec::new)`). -/
+def parseVariant (toks : List (List Char)) : Option ResetVariant :=
+  match Wire.kv? toks "reset_variant" with
+  | none => some .cur
+  | some w => if w = "cur".toList then some .cur else if w = "fix".toList then some .fix else none
+
+/-- `C10 hist idx=N mode=m [reset_variant=cur|fix] ops=…` -/
 def handle (toks : List (List Char)) : String :=
   match Wire.kv? toks "mode", Wire.kv? toks "ops" with
   | some m, some ops =>
-    match Wire.nat? m, Wire.allSome ((Wire.items '/' ops).map parseOp) with
-    | some m, some ops => "ok " ++ Wire.joinWith "|" (replay (World.init (modeOf m)) ops [])
-    | _, _ => "bad-op"
+    match Wire.nat? m, Wire.allSome ((Wire.items '/' ops).map parseOp), parseVariant toks with
+    | some m, some ops, some v => "ok " ++ Wire.joinWith "|" (replay v (World.init (modeOf m)) ops [])
+    | _, _, _ => "bad-op"
   | _, _ => "bad-op"
 
 end Recycle.IO
